@@ -221,13 +221,13 @@ Proof.
 Qed.
 
 (* one server-side SET of a payload with a version id [m] nobody used yet, against the contract's [write] *)
-Lemma set_rel : forall f lo sp sv b now k v e m, rinv f lo sp sv b -> (lo <= now)%Z -> clean k -> b <= m ->
+Lemma set_rel : forall f lo sp sv b now k v e m, rinv f lo sp sv b -> clean k -> b <= m ->
   let f' := ext f (next sp) m in
   let sv' := mkSrv (s_set (rKey k) (mkEnt (mkPl k v m e) (deadline now (expiration e now))) (store sv)) [] in
   rinv f' (Z.max lo (floor_after now e)) (fst (write k v e sp)) sv' (S m) /\
   (forall x, x < next sp -> f' x = f x).
 Proof.
-  intros f lo sp sv b now k v e m Hi Hlo Hk Hm f' sv'.
+  intros f lo sp sv b now k v e m Hi Hk Hm f' sv'.
   assert (Hagree : forall x, x < next sp -> f' x = f x).
   { intros x Hx. unfold f', ext. destruct (Nat.eqb x (next sp)) eqn:E; [apply Nat.eqb_eq in E; lia|reflexivity]. }
   split; [|exact Hagree].
@@ -376,7 +376,7 @@ Lemma put_ok : forall f lo sp rs now k v e, rinv f lo sp (r_srv rs) (r_nxt rs) -
   step_ok f lo sp rs now (Put k v e).
 Proof.
   intros f lo sp rs now k v e Hi Hlo Hk.
-  destruct (set_rel f lo sp (r_srv rs) (r_nxt rs) now k v e (r_nxt rs) Hi Hlo Hk (Nat.le_refl _)) as [Hr Ha].
+  destruct (set_rel f lo sp (r_srv rs) (r_nxt rs) now k v e (r_nxt rs) Hi Hk (Nat.le_refl _)) as [Hr Ha].
   exists (ext f (next sp) (r_nxt rs)). split; [exact Ha|].
   unfold rk_step, rk_prog, rk_put, put_prog. cbn [ren_op run_prog srv_cmd step op_floor r_srv r_nxt].
   rewrite (do_set_clean _ _ _ _ _ (ri_watch _ _ _ _ _ Hi)).
@@ -400,7 +400,7 @@ Proof.
     rewrite H. cbn [pl_orec p_ver]. split; [reflexivity|].
     eapply rinv_mono; [apply Z.le_max_l|apply Nat.le_succ_diag_r|exact Hi].
   - destruct (s_find now (rKey k) (r_srv rs)) as [y|] eqn:Es; [contradiction|].
-    destruct (set_rel f lo sp (r_srv rs) (r_nxt rs) now k v e (r_nxt rs) Hi Hlo Hk (Nat.le_refl _)) as [Hr Ha].
+    destruct (set_rel f lo sp (r_srv rs) (r_nxt rs) now k v e (r_nxt rs) Hi Hk (Nat.le_refl _)) as [Hr Ha].
     exists (ext f (next sp) (r_nxt rs)). split; [exact Ha|].
     rewrite (do_set_clean _ _ _ _ _ (ri_watch _ _ _ _ _ Hi)).
     unfold write in *. cbn [fst snd run_prog r_srv r_nxt ren_out] in *. split.
@@ -446,7 +446,7 @@ Proof.
     rewrite (f_eqb f lo sp _ _ (ver r) n Hi (find_ver_range sp now k r (ri_fresh _ _ _ _ _ Hi) Ef) Hn).
     destruct (Nat.eqb (ver r) n) eqn:Ev.
     + (* the version matches: EXEC succeeds (nobody touched the key since WATCH) *)
-      destruct (set_rel f lo sp (mkSrv st []) nx now k v e nx Hi Hlo Hk (Nat.le_refl _)) as [Hr Ha].
+      destruct (set_rel f lo sp (mkSrv st []) nx now k v e nx Hi Hk (Nat.le_refl _)) as [Hr Ha].
       exists (ext f (next sp) nx). split; [exact Ha|].
       cbn [run_prog srv_cmd r_srv r_nxt conn_dirty w_conn w_dirty Nat.eqb andb orb].
       unfold do_set. cbn [store watches]. rewrite unwatch_touch_single.
@@ -501,27 +501,24 @@ Fixpoint sets (now : Z) (rs : list (key * value * option Z)) (m : nat) (sv : srv
 Definition rs_floor (now : Z) (rs : list (key * value * option Z)) : Z :=
   fold_right (fun r a => Z.max (floor_after now (snd r)) a) now rs.
 
-Lemma sets_rel : forall now rs f lo sp st b m, rinv f lo sp (mkSrv st []) b -> (lo <= now)%Z -> b <= m ->
+Lemma sets_rel : forall now rs f lo sp st b m, rinv f lo sp (mkSrv st []) b -> b <= m ->
   Forall (fun r => clean (fst (fst r))) rs ->
   exists f', (forall x, x < next sp -> f' x = f x) /\
     rinv f' (Z.max lo (rs_floor now rs)) (put_many rs sp) (sets now rs m (mkSrv st [])) (m + length rs).
 Proof.
-  induction rs as [|[[k v] e] t IH]; intros f lo sp st b m Hi Hlo Hm Hc; cbn [put_many sets length rs_floor fold_right].
-  - exists f. split; [auto|]. rewrite Nat.add_0_r. eapply rinv_mono; [apply Z.le_max_l|exact Hm|exact Hi].
+  induction rs as [|[[k v] e] t IH]; intros f lo sp st b m Hi Hm Hc.
+  - cbn [put_many sets length rs_floor fold_right].
+    exists f. split; [auto|]. rewrite Nat.add_0_r. eapply rinv_mono; [apply Z.le_max_l|exact Hm|exact Hi].
   - inversion Hc as [|? ? Hk Ht]; subst. cbn [fst] in Hk.
-    destruct (set_rel f lo sp (mkSrv st []) b now k v e m Hi Hlo Hk Hm) as [Hr Ha].
+    destruct (set_rel f lo sp (mkSrv st []) b now k v e m Hi Hk Hm) as [Hr Ha].
+    cbn [put_many sets length].
     rewrite (do_set_clean now (rKey k) (mkPl k v m e) (expiration e now) (mkSrv st []) eq_refl).
-    cbn [store] in *.
-    assert (Hlo1 : (Z.max lo (floor_after now e) <= Z.max lo (floor_after now e))%Z) by lia.
-    (* the next SET does not read: no condition on the instant *)
-    destruct (IH (ext f (next sp) m) (Z.max lo (floor_after now e)) (fst (write k v e sp)) _ (S m) (S m)) as [f' [Ha' Hr']].
-    + exact Hr.
-    + (* lo <= now is only needed by reads; re-establish through monotonicity below *) admit_marker.
-    + apply Nat.le_refl.
-    + exact Ht.
-    + exists f'. split.
-      * intros x Hx. rewrite Ha'; [apply Ha; exact Hx|]. unfold write. cbn [fst next]. lia.
-      * rewrite Nat.add_succ_r. cbn [snd].
-        eapply rinv_mono; [|apply Nat.le_refl|exact Hr'].
-        fold (rs_floor now t). lia.
+    cbn [store] in Hr |- *.
+    destruct (IH (ext f (next sp) m) (Z.max lo (floor_after now e)) (fst (write k v e sp)) _ (S m) (S m)
+                 Hr (Nat.le_refl _) Ht) as [f' [Ha' Hr']].
+    exists f'. split.
+    + intros x Hx. rewrite Ha'; [apply Ha; exact Hx|]. unfold write. cbn [fst next]. lia.
+    + rewrite Nat.add_succ_r.
+      eapply rinv_mono; [|apply Nat.le_refl|exact Hr'].
+      unfold rs_floor. cbn [fold_right snd]. lia.
 Qed.
